@@ -26,6 +26,7 @@ import (
 
 type HarnessSpec struct {
 	Name        string           `json:"name"`
+	Func        string           `json:"func"` // harness function (default: Name); lets one function run under several cfgs
 	Tiers       []string         `json:"tiers"`
 	Cfg         map[string]int64 `json:"cfg"`
 	CfgThorough map[string]int64 `json:"cfg_thorough"`
@@ -37,6 +38,13 @@ type HarnessSpec struct {
 	Note        string           `json:"note"`
 	AllowUnsup  []string         `json:"allow_unsupported"`
 	TimeoutMs   int              `json:"solver_timeout_ms"`
+}
+
+func (h HarnessSpec) fn() string {
+	if h.Func != "" {
+		return h.Func
+	}
+	return h.Name
 }
 
 type PropSpec struct {
@@ -199,7 +207,7 @@ type HarnessResult struct {
 }
 
 func runHarness(l *loaded, spec HarnessSpec, tier string, workers int, seed int64, solverBin string) *HarnessResult {
-	fn := l.pkg.Func(spec.Name)
+	fn := l.pkg.Func(spec.fn())
 	res := &HarnessResult{Spec: spec, Funcs: map[string]int{}}
 	if fn == nil {
 		fmt.Printf("ERROR no such harness %s\n", spec.Name)
